@@ -99,6 +99,8 @@ class C10(Check):
             # the data and weights the last refit received (in iterfit's own, sorted, order) and the status it returned
             self._lastfit = tuple(np.array(v, dtype='f8') for v in a[1:4]) + (int(r[0]),)
             self._statuses.append(int(r[0]))
+        self.brd.per_case = 2
+        self.brd.attach(self.rec, B, 'iterfit', every=3)                     # buffer-reuse differential (vlib/brd.py)
         self.rec.wrap(B.bspline, 'fit', result=fit_seen)
         self.rec.wrap(B, 'djs_reject')
         self.rec.wrap(B, 'iterfit')
